@@ -130,7 +130,10 @@ impl Validator<'_> {
                                 "unrecognized attribute `{}`",
                                 attribute.id
                             );
-                        } else if !found_attributes.insert(attribute.id.clone()) {
+                        } else if attribute.id != cfg_attribute
+                            && !found_attributes.insert(attribute.id.clone())
+                        {
+                            // (several `cfg` attributes are allowed: they are conjoined)
                             return_err!(
                                 attribute.id_span,
                                 "duplicate attribute `{}`",
